@@ -43,6 +43,7 @@ var Clk *vclock.Clock
 func FlowMod() *Mod[flow.Rule] {
 	m := &Mod[flow.Rule]{Name: "flow", Ctor: "CFlow"}
 	m.LoadAll, m.LoadRes, m.GetRes, m.GetAll = flow.LoadRules, flow.LoadRulesOfResource, flow.GetRulesOfResource, flow.GetRules
+	m.ClearAll, m.ClearRes = flow.ClearRules, flow.ClearRulesOfResource
 	m.Ctrls = func(res string) []CtrlObs[flow.Rule] {
 		var r []CtrlObs[flow.Rule]
 		for _, c := range flow.VerifRuleControllers(res) {
@@ -203,6 +204,7 @@ func FlowMod() *Mod[flow.Rule] {
 func IsoMod() *Mod[isolation.Rule] {
 	m := &Mod[isolation.Rule]{Name: "isolation", Ctor: "CIso"}
 	m.LoadAll, m.LoadRes, m.GetRes, m.GetAll = isolation.LoadRules, isolation.LoadRulesOfResource, isolation.GetRulesOfResource, isolation.GetRules
+	m.ClearAll, m.ClearRes = isolation.ClearRules, isolation.ClearRulesOfResource
 	m.Coq = func(t *isolation.Rule, ri func(string) int64) string {
 		return fmt.Sprintf("{| i_tag := %s; i_res := %d; i_metric := %s; i_thr := %d |}", emit.Z(tagOf(t.ID)), ri(t.Resource), emit.Z(int64(t.MetricType)), t.Threshold)
 	}
@@ -287,6 +289,7 @@ func itemsEq(a, b map[interface{}]int64) bool {
 func HotMod() *Mod[hotspot.Rule] {
 	m := &Mod[hotspot.Rule]{Name: "hotspot", Ctor: "CHot"}
 	m.LoadAll, m.LoadRes, m.GetRes, m.GetAll = hotspot.LoadRules, hotspot.LoadRulesOfResource, hotspot.GetRulesOfResource, hotspot.GetRules
+	m.ClearAll, m.ClearRes = hotspot.ClearRules, hotspot.ClearRulesOfResource
 	m.Ctrls = func(res string) []CtrlObs[hotspot.Rule] {
 		var r []CtrlObs[hotspot.Rule]
 		for _, c := range hotspot.VerifRuleControllers(res) {
@@ -522,6 +525,7 @@ func BrkTrips(t *cb.Rule) bool {
 func BrkMod() *Mod[cb.Rule] {
 	m := &Mod[cb.Rule]{Name: "circuitbreaker", Ctor: "CBrk", SeparateReported: true}
 	m.LoadAll, m.LoadRes, m.GetRes, m.GetAll = cb.LoadRules, cb.LoadRulesOfResource, cb.GetRulesOfResource, cb.GetRules
+	m.ClearAll, m.ClearRes = cb.ClearRules, cb.ClearRulesOfResource
 	m.Ctrls = func(res string) []CtrlObs[cb.Rule] {
 		var r []CtrlObs[cb.Rule]
 		for _, c := range cb.VerifRuleControllers(res) {
